@@ -50,12 +50,12 @@ var preludeChunks = []preludeChunk{
 	{[]string{"Flt","declare-datatypes","fin","fv","nan","pinf","ninf"}, `(declare-datatypes ((Flt 0)) (((fin (fv Real)) (nan) (pinf) (ninf))))`},
 	{[]string{"nil-slice"}, `(define-fun nil-slice () Slice (mk-slice 0 0 0 0))`},
 	{[]string{"nil-iface"}, `(define-fun nil-iface () Iface (mk-iface 0 0))`},
-	{[]string{"wrap64"}, `(define-fun wrap64 ((x Int)) Int (- (mod (+ x 9223372036854775808) 18446744073709551616) 9223372036854775808))`},
-	{[]string{"wrap32"}, `(define-fun wrap32 ((x Int)) Int (- (mod (+ x 2147483648) 4294967296) 2147483648))`},
+	{[]string{"wrap64"}, `(define-fun wrap64 ((x Int)) Int (ite (and (<= (- 9223372036854775808) x) (<= x 9223372036854775807)) x (- (mod (+ x 9223372036854775808) 18446744073709551616) 9223372036854775808)))`},
+	{[]string{"wrap32"}, `(define-fun wrap32 ((x Int)) Int (ite (and (<= (- 2147483648) x) (<= x 2147483647)) x (- (mod (+ x 2147483648) 4294967296) 2147483648)))`},
 	{[]string{"wrap16"}, `(define-fun wrap16 ((x Int)) Int (- (mod (+ x 32768) 65536) 32768))`},
 	{[]string{"wrap8"}, `(define-fun wrap8 ((x Int)) Int (- (mod (+ x 128) 256) 128))`},
-	{[]string{"wrapu64"}, `(define-fun wrapu64 ((x Int)) Int (mod x 18446744073709551616))`},
-	{[]string{"wrapu32"}, `(define-fun wrapu32 ((x Int)) Int (mod x 4294967296))`},
+	{[]string{"wrapu64"}, `(define-fun wrapu64 ((x Int)) Int (ite (and (<= 0 x) (<= x 18446744073709551615)) x (mod x 18446744073709551616)))`},
+	{[]string{"wrapu32"}, `(define-fun wrapu32 ((x Int)) Int (ite (and (<= 0 x) (<= x 4294967295)) x (mod x 4294967296)))`},
 	{[]string{"wrapu16"}, `(define-fun wrapu16 ((x Int)) Int (mod x 65536))`},
 	{[]string{"wrapu8"}, `(define-fun wrapu8 ((x Int)) Int (mod x 256))`},
 	{[]string{"godiv"}, `(define-fun godiv ((x Int) (y Int)) Int (ite (>= x 0) (ite (> y 0) (div x y) (- (div x (- y)))) (ite (> y 0) (- (div (- x) y)) (div (- x) (- y)))))`},
@@ -63,7 +63,7 @@ var preludeChunks = []preludeChunk{
 	{[]string{"strlen"}, `(declare-fun strlen (Int) Int)`},
 	{[]string{"strcat"}, `(declare-fun strcat (Int Int) Int)`},
 	{[]string{"ASSERT:strlen"}, `(assert (= (strlen 0) 0))`},
-	{[]string{"ASSERT:strlen"}, `(assert (forall ((s Int)) (! (and (>= (strlen s) 0) (=> (and (>= s 0) (= (strlen s) 0)) (= s 0))) :pattern ((strlen s)))))`},
+	{[]string{"ASSERT:strlen"}, `(assert (forall ((s Int)) (! (and (>= (strlen s) 0) (<= (strlen s) 4611686018427387904) (=> (and (>= s 0) (= (strlen s) 0)) (= s 0))) :pattern ((strlen s)))))`},
 	{[]string{"fis-fin"}, `(define-fun fis-fin ((x Flt)) Bool ((_ is fin) x))`},
 	{[]string{"fneg"}, `(define-fun fneg ((x Flt)) Flt (ite ((_ is fin) x) (fin (- (fv x))) (ite ((_ is pinf) x) ninf (ite ((_ is ninf) x) pinf nan))))`},
 	{[]string{"fabs"}, `(define-fun fabs ((x Flt)) Flt (ite ((_ is fin) x) (fin (ite (< (fv x) 0.0) (- (fv x)) (fv x))) (ite ((_ is nan) x) nan pinf)))`},
@@ -332,7 +332,7 @@ func (ty *Types) Inv(t types.Type, e string) string {
 	case *types.Pointer, *types.Map, *types.Chan, *types.Signature:
 		return "(>= " + e + " 0)"
 	case *types.Slice:
-		return fmt.Sprintf("(and (>= (s-arr %[1]s) 0) (>= (s-off %[1]s) 0) (<= 0 (s-len %[1]s)) (<= (s-len %[1]s) (s-cap %[1]s)) (=> (= (s-arr %[1]s) 0) (= (s-cap %[1]s) 0)))", e)
+		return fmt.Sprintf("(and (>= (s-arr %[1]s) 0) (>= (s-off %[1]s) 0) (<= 0 (s-len %[1]s)) (<= (s-len %[1]s) (s-cap %[1]s)) (<= (s-cap %[1]s) 4611686018427387904) (=> (= (s-arr %[1]s) 0) (= (s-cap %[1]s) 0)))", e)
 	case *types.Interface:
 		return fmt.Sprintf("(and (>= (i-tag %[1]s) 0) (=> (= (i-tag %[1]s) 0) (= (i-val %[1]s) 0)))", e)
 	case *types.Struct:
